@@ -530,3 +530,1291 @@ Proof.
   rewrite <- (app_nil_r (encode x)) at 2.
   rewrite (dec_encode L HL x _ _ [] Hwf Hh); [reflexivity|lia].
 Qed.
+
+(* ------------------------------------------------------------------ *)
+(* injectivity, prefix-freeness                                         *)
+
+Theorem encode_prefix_free L (HL : lim64 L) x y r1 r2 :
+  wf L x = true -> wf L y = true -> encode x ++ r1 = encode y ++ r2 -> x = y /\ r1 = r2.
+Proof.
+  intros Hx Hy H.
+  pose (fuel := Nat.max (length (encode x)) (length (encode y))).
+  pose (depth := Nat.max (height x) (height y)).
+  pose proof (dec_encode L HL x fuel depth r1 Hx ltac:(unfold depth; lia) ltac:(unfold fuel; lia)) as H1.
+  pose proof (dec_encode L HL y fuel depth r2 Hy ltac:(unfold depth; lia) ltac:(unfold fuel; lia)) as H2.
+  rewrite H, H2 in H1. injection H1 as -> ->. split; reflexivity.
+Qed.
+
+Theorem encode_injective L (HL : lim64 L) x y :
+  wf L x = true -> wf L y = true -> encode x = encode y -> x = y.
+Proof.
+  intros Hx Hy H.
+  apply (encode_prefix_free L HL x y [] [] Hx Hy). rewrite H. reflexivity.
+Qed.
+
+(* ------------------------------------------------------------------ *)
+(* what a successfully read head guarantees                             *)
+
+Lemma take_spec k bs a r : take k bs = Some (a, r) -> bs = a ++ r /\ length a = k.
+Proof.
+  revert bs a r; induction k as [|k IH]; intros bs a r H; cbn [take] in H.
+  - injection H as <- <-. split; reflexivity.
+  - destruct bs as [|b bs]; [discriminate|].
+    destruct (take k bs) as [[a' r']|] eqn:E; [|discriminate].
+    injection H as <- <-. destruct (IH _ _ _ E) as [-> <-]. split; reflexivity.
+Qed.
+
+Lemma take_n_spec n bs a r : take_n n bs = Some (a, r) -> bs = a ++ r /\ len a = n.
+Proof.
+  unfold take_n. destruct (n <=? len bs); [|discriminate]. intros H.
+  apply take_spec in H. destruct H as [-> H]. split; [reflexivity|]. unfold len. lia.
+Qed.
+
+Lemma be_value_lt a : all_bytes a = true -> be_value a < 256 ^ len a.
+Proof.
+  induction a as [|b a IH] using rev_ind; intros H.
+  - cbn. lia.
+  - unfold all_bytes in H. rewrite forallb_app in H. apply andb_true_iff in H. destruct H as [Ha Hb].
+    cbn [forallb] in Hb. rewrite andb_true_r in Hb. apply N.ltb_lt in Hb.
+    specialize (IH Ha). rewrite be_value_app, len_app.
+    change (len [b]) with 1. rewrite N.pow_add_r. change (256 ^ 1) with 256. nia.
+Qed.
+
+Lemma be_value_lt_k a k c :
+  all_bytes a = true -> length a = k -> 256 ^ N.of_nat k = c -> be_value a < c.
+Proof. intros Ha Hk Hc. subst c k. apply be_value_lt, Ha. Qed.
+
+Lemma read_head_spec bs mt ai n r :
+  read_head bs = Ok (mt, ai, n, r) ->
+  (length r < length bs)%nat /\ mt < 8 /\ ai < 28 /\ n < W64 /\
+  (ai < 24 -> n = ai) /\ (ai = 24 -> n < 256) /\
+  exists b, b < 256 /\ mt = b / 32 /\ ai = b mod 32 /\
+    exists c, bs = b :: c ++ r /\ forall r', read_head (b :: c ++ r') = Ok (mt, ai, n, r').
+Proof.
+  destruct bs as [|b r0]; [discriminate|].
+  intros H. unfold read_head in H. cbv zeta in H.
+  destruct (256 <=? b) eqn:Eb; [discriminate|].
+  assert (Hb : b < 256) by lia.
+  assert (Hmt : b / 32 < 8) by (apply N.div_lt_upper_bound; lia).
+  pose proof (N.mod_lt b 32 ltac:(lia)) as Hai.
+  remember (b mod 32) as a eqn:Ea.
+  destruct (a <? 24) eqn:E1.
+  { injection H as <- <- <- <-. cbn [length]. repeat split; try lia.
+    exists b. repeat split; try assumption. exists []. split; [reflexivity|]. intros r'. cbn [app].
+    unfold read_head. cbv zeta. rewrite Eb, <- Ea, E1. reflexivity. }
+  destruct (a <? 28) eqn:E2.
+  { destruct (take _ r0) as [[x r']|] eqn:Et; [|discriminate].
+    destruct (all_bytes x) eqn:Ex; [|discriminate].
+    injection H as <- <- <- <-.
+    apply take_spec in Et. destruct Et as [-> Hk]. cbn [length]. rewrite app_length.
+    assert (Hcases : a = 24 \/ a = 25 \/ a = 26 \/ a = 27) by lia.
+    assert (Hx : be_value x < W64 /\ (a = 24 -> be_value x < 256) /\ (1 <= length x)%nat).
+    { destruct Hcases as [->|[->|[->| ->]]].
+      - pose proof (be_value_lt_k x 1 256 Ex Hk eq_refl). repeat split; lia.
+      - pose proof (be_value_lt_k x 2 65536 Ex Hk eq_refl). repeat split; lia.
+      - pose proof (be_value_lt_k x 4 4294967296 Ex Hk eq_refl). repeat split; lia.
+      - pose proof (be_value_lt_k x 8 W64 Ex Hk eq_refl). repeat split; lia. }
+    destruct Hx as (Hx1 & Hx2 & Hx3).
+    repeat split; try lia.
+    exists b. repeat split; try assumption. exists x. split; [reflexivity|]. intros r''.
+    unfold read_head. cbv zeta. rewrite Eb, <- Ea, E1, E2. rewrite (take_app _ x r'' Hk), Ex. reflexivity. }
+  destruct (a <? 31); [discriminate|].
+  destruct (b / 32 =? 7); [discriminate|].
+  destruct ((2 <=? b / 32) && (b / 32 <=? 5)); discriminate.
+Qed.
+
+Lemma read_head_consumes bs mt ai n r :
+  read_head bs = Ok (mt, ai, n, r) -> (length r < length bs)%nat.
+Proof. intros H. apply read_head_spec in H. apply H. Qed.
+
+Lemma mt_cases mt : mt < 8 -> mt = 0 \/ mt = 1 \/ mt = 2 \/ mt = 3 \/ mt = 4 \/ mt = 5 \/ mt = 6 \/ mt = 7.
+Proof. lia. Qed.
+
+(* ------------------------------------------------------------------ *)
+(* the decoder consumes input and never runs out of fuel                *)
+
+Definition consuming (d : bytes -> res (item * bytes)) : Prop :=
+  forall bs x r, d bs = Ok (x, r) -> (length r < length bs)%nat.
+
+Lemma dec_seq_consumes d n : consuming d ->
+  forall bs xs r, dec_seq d n bs = Ok (xs, r) -> (length r <= length bs)%nat.
+Proof.
+  intros Hd. induction n as [|n IH]; intros bs xs r H; cbn [dec_seq] in H.
+  - injection H as <- <-. lia.
+  - destruct (d bs) as [[x r0]|e] eqn:E; [|discriminate].
+    destruct (dec_seq d n r0) as [[xs' r1]|e] eqn:E1; [|discriminate].
+    injection H as <- <-. apply Hd in E. apply IH in E1. lia.
+Qed.
+
+Lemma dec_pairs_consumes d n : consuming d ->
+  forall bs ps r, dec_pairs d n bs = Ok (ps, r) -> (length r <= length bs)%nat.
+Proof.
+  intros Hd. induction n as [|n IH]; intros bs ps r H; cbn [dec_pairs] in H.
+  - injection H as <- <-. lia.
+  - destruct (d bs) as [[k r0]|e] eqn:E; [|discriminate].
+    destruct (negb (scalar_key k)); [discriminate|].
+    destruct (d r0) as [[v r1]|e] eqn:E0; [|discriminate].
+    destruct (dec_pairs d n r1) as [[ps' r2]|e] eqn:E1; [|discriminate].
+    injection H as <- <-. apply Hd in E. apply Hd in E0. apply IH in E1. lia.
+Qed.
+
+Theorem dec_consumes L : forall fuel depth bs x r,
+  dec L fuel depth bs = Ok (x, r) -> (length r < length bs)%nat.
+Proof.
+  induction fuel as [|f IH]; intros depth bs x r H; [discriminate|].
+  destruct (read_head bs) as [[[[mt ai] n] r0]|e] eqn:Hr;
+    [|rewrite (dec_S_err _ _ _ _ _ Hr) in H; discriminate].
+  pose proof (read_head_spec _ _ _ _ _ Hr) as (Hlen & Hmt & _).
+  destruct (mt_cases mt Hmt) as [->|[->|[->|[->|[->|[->|[->| ->]]]]]]].
+  - rewrite (dec_S_uint _ _ _ _ _ _ _ Hr) in H. injection H as <- <-. exact Hlen.
+  - rewrite (dec_S_nint _ _ _ _ _ _ _ Hr) in H. injection H as <- <-. exact Hlen.
+  - rewrite (dec_S_bstr _ _ _ _ _ _ _ Hr) in H.
+    destruct (take_n n r0) as [[a r']|] eqn:Et; [|discriminate].
+    destruct (all_bytes a); [|discriminate]. injection H as <- <-.
+    apply take_n_spec in Et. destruct Et as [-> _]. rewrite app_length in Hlen. lia.
+  - rewrite (dec_S_tstr _ _ _ _ _ _ _ Hr) in H.
+    destruct (take_n n r0) as [[a r']|] eqn:Et; [|discriminate].
+    destruct (all_bytes a); [|discriminate]. destruct (utf8_valid a); [|discriminate].
+    injection H as <- <-.
+    apply take_n_spec in Et. destruct Et as [-> _]. rewrite app_length in Hlen. lia.
+  - rewrite (dec_S_arr _ _ _ _ _ _ _ Hr) in H.
+    destruct (max_arr L <? n); [discriminate|]. destruct depth as [|d']; [discriminate|].
+    destruct (dec_seq (dec L f d') (N.to_nat n) r0) as [[xs r']|e] eqn:Es; [|discriminate].
+    injection H as <- <-.
+    apply (dec_seq_consumes _ _ (IH d')) in Es. lia.
+  - rewrite (dec_S_map _ _ _ _ _ _ _ Hr) in H.
+    destruct (max_map L <? n); [discriminate|]. destruct depth as [|d']; [discriminate|].
+    destruct (dec_pairs (dec L f d') (N.to_nat n) r0) as [[ps r']|e] eqn:Es; [|discriminate].
+    destruct (has_dup _); [discriminate|].
+    injection H as <- <-.
+    apply (dec_pairs_consumes _ _ (IH d')) in Es. lia.
+  - rewrite (dec_S_tag _ _ _ _ _ _ _ Hr) in H.
+    destruct (negb (tag_allowed n)); [discriminate|].
+    destruct (dec L f depth r0) as [[y r']|e] eqn:Ed; [|discriminate].
+    injection H as <- <-. apply IH in Ed. lia.
+  - rewrite (dec_S_simple _ _ _ _ _ _ _ Hr) in H.
+    destruct (ai <? 24); [injection H as <- <-; exact Hlen|].
+    destruct (ai =? 24); [|discriminate].
+    destruct (n <? 32); [discriminate|]. injection H as <- <-. exact Hlen.
+Qed.
+
+Lemma dec_seq_no_fuel d n : consuming d ->
+  forall bs, (forall bs', (length bs' <= length bs)%nat -> d bs' <> Err EFuel) ->
+  dec_seq d n bs <> Err EFuel.
+Proof.
+  intros Hd. induction n as [|n IH]; intros bs Hnf; cbn [dec_seq]; [discriminate|].
+  destruct (d bs) as [[x r0]|e] eqn:E.
+  - apply Hd in E.
+    assert (Hr : dec_seq d n r0 <> Err EFuel).
+    { apply IH. intros bs' Hb. apply Hnf. lia. }
+    destruct (dec_seq d n r0) as [[xs r1]|e]; [discriminate|]. congruence.
+  - specialize (Hnf bs (le_n _)). congruence.
+Qed.
+
+Lemma dec_pairs_no_fuel d n : consuming d ->
+  forall bs, (forall bs', (length bs' <= length bs)%nat -> d bs' <> Err EFuel) ->
+  dec_pairs d n bs <> Err EFuel.
+Proof.
+  intros Hd. induction n as [|n IH]; intros bs Hnf; cbn [dec_pairs]; [discriminate|].
+  destruct (d bs) as [[k r0]|e] eqn:E.
+  - apply Hd in E. destruct (negb (scalar_key k)); [discriminate|].
+    destruct (d r0) as [[v r1]|e] eqn:E0.
+    + apply Hd in E0.
+      assert (Hr : dec_pairs d n r1 <> Err EFuel).
+      { apply IH. intros bs' Hb. apply Hnf. lia. }
+      destruct (dec_pairs d n r1) as [[ps r2]|e]; [discriminate|]. congruence.
+    + assert (d r0 <> Err EFuel) by (apply Hnf; lia). congruence.
+  - specialize (Hnf bs (le_n _)). congruence.
+Qed.
+
+Lemma dec_no_fuel L : forall fuel depth bs, (length bs < fuel)%nat -> dec L fuel depth bs <> Err EFuel.
+Proof.
+  induction fuel as [|f IH]; intros depth bs Hlt; [lia|].
+  destruct (read_head bs) as [[[[mt ai] n] r0]|e] eqn:Hr.
+  2:{ rewrite (dec_S_err _ _ _ _ _ Hr). intros H. injection H as ->.
+      destruct bs as [|b r0]; [discriminate|]. unfold read_head in Hr. cbv zeta in Hr.
+      destruct (256 <=? b); [discriminate|]. destruct (b mod 32 <? 24); [discriminate|].
+      destruct (b mod 32 <? 28).
+      - destruct (take _ r0) as [[x r']|]; [|discriminate]. destruct (all_bytes x); discriminate.
+      - destruct (b mod 32 <? 31); [discriminate|]. destruct (b / 32 =? 7); [discriminate|].
+        destruct ((2 <=? b / 32) && (b / 32 <=? 5)); discriminate. }
+  pose proof (read_head_spec _ _ _ _ _ Hr) as (Hlen & Hmt & _).
+  destruct (mt_cases mt Hmt) as [->|[->|[->|[->|[->|[->|[->| ->]]]]]]].
+  - rewrite (dec_S_uint _ _ _ _ _ _ _ Hr). discriminate.
+  - rewrite (dec_S_nint _ _ _ _ _ _ _ Hr). discriminate.
+  - rewrite (dec_S_bstr _ _ _ _ _ _ _ Hr).
+    destruct (take_n n r0) as [[a r']|]; [|discriminate]. destruct (all_bytes a); discriminate.
+  - rewrite (dec_S_tstr _ _ _ _ _ _ _ Hr).
+    destruct (take_n n r0) as [[a r']|]; [|discriminate]. destruct (all_bytes a); [|discriminate].
+    destruct (utf8_valid a); discriminate.
+  - rewrite (dec_S_arr _ _ _ _ _ _ _ Hr).
+    destruct (max_arr L <? n); [discriminate|]. destruct depth as [|d']; [discriminate|].
+    assert (Hs : dec_seq (dec L f d') (N.to_nat n) r0 <> Err EFuel).
+    { apply dec_seq_no_fuel; [intros ? ? ?; apply dec_consumes|].
+      intros bs' Hb. apply IH. lia. }
+    destruct (dec_seq (dec L f d') (N.to_nat n) r0) as [[xs r']|e]; [discriminate|congruence].
+  - rewrite (dec_S_map _ _ _ _ _ _ _ Hr).
+    destruct (max_map L <? n); [discriminate|]. destruct depth as [|d']; [discriminate|].
+    assert (Hs : dec_pairs (dec L f d') (N.to_nat n) r0 <> Err EFuel).
+    { apply dec_pairs_no_fuel; [intros ? ? ?; apply dec_consumes|].
+      intros bs' Hb. apply IH. lia. }
+    destruct (dec_pairs (dec L f d') (N.to_nat n) r0) as [[ps r']|e]; [|congruence].
+    destruct (has_dup _); discriminate.
+  - rewrite (dec_S_tag _ _ _ _ _ _ _ Hr).
+    destruct (negb (tag_allowed n)); [discriminate|].
+    assert (Hs : dec L f depth r0 <> Err EFuel) by (apply IH; lia).
+    destruct (dec L f depth r0) as [[y r']|e]; [discriminate|congruence].
+  - rewrite (dec_S_simple _ _ _ _ _ _ _ Hr).
+    destruct (ai <? 24); [discriminate|]. destruct (ai =? 24); [|discriminate].
+    destruct (n <? 32); discriminate.
+Qed.
+
+Theorem decode_no_fuel L bs : decode L bs <> Err EFuel.
+Proof.
+  unfold decode.
+  pose proof (dec_no_fuel L (S (length bs)) (max_depth L) bs ltac:(lia)) as H.
+  destruct (dec L (S (length bs)) (max_depth L) bs) as [[x [|b r]]|e]; try discriminate. congruence.
+Qed.
+
+(* ------------------------------------------------------------------ *)
+(* rejection of malformed input (at any position / at top level)        *)
+
+Lemma read_head_31 mt r : mt < 8 ->
+  read_head ((mt * 32 + 31) :: r) =
+  if mt =? 7 then Err EBreak else if (2 <=? mt) && (mt <=? 5) then Err EIndef else Err EReserved.
+Proof.
+  intros Hm. unfold read_head. cbv zeta. rewrite hb_small, hb_div, hb_mod by lia.
+  change (31 <? 24) with false. change (31 <? 28) with false. change (31 <? 31) with false.
+  reflexivity.
+Qed.
+
+Theorem dec_rejects_indefinite L f depth mt rest :
+  2 <= mt <= 5 -> dec L (S f) depth ((mt * 32 + 31) :: rest) = Err EIndef.
+Proof.
+  intros Hm. apply dec_S_err. rewrite read_head_31 by lia.
+  destruct (mt =? 7) eqn:E; [lia|].
+  destruct (2 <=? mt) eqn:E1; [|lia]. destruct (mt <=? 5) eqn:E2; [|lia]. reflexivity.
+Qed.
+
+Theorem decode_rejects_indefinite L mt rest :
+  2 <= mt <= 5 -> decode L ((mt * 32 + 31) :: rest) = Err EIndef.
+Proof. intros Hm. unfold decode. rewrite dec_rejects_indefinite by exact Hm. reflexivity. Qed.
+
+Theorem dec_rejects_reserved L f depth b rest :
+  b < 256 -> 28 <= b mod 32 <= 30 -> dec L (S f) depth (b :: rest) = Err EReserved.
+Proof.
+  intros Hb Hm. apply dec_S_err. unfold read_head. cbv zeta.
+  destruct (256 <=? b) eqn:E; [lia|].
+  destruct (b mod 32 <? 24) eqn:E1; [lia|]. destruct (b mod 32 <? 28) eqn:E2; [lia|].
+  destruct (b mod 32 <? 31) eqn:E3; [reflexivity|lia].
+Qed.
+
+Theorem decode_rejects_reserved L b rest :
+  b < 256 -> 28 <= b mod 32 <= 30 -> decode L (b :: rest) = Err EReserved.
+Proof. intros Hb Hm. unfold decode. rewrite dec_rejects_reserved by assumption. reflexivity. Qed.
+
+(* a "byte" that is not a byte is refused too *)
+Theorem dec_rejects_nonbyte L f depth b rest : 256 <= b -> dec L (S f) depth (b :: rest) = Err EReserved.
+Proof.
+  intros Hb. apply dec_S_err. unfold read_head. destruct (256 <=? b) eqn:E; [reflexivity|lia].
+Qed.
+
+Theorem dec_rejects_break L f depth rest : dec L (S f) depth (255 :: rest) = Err EBreak.
+Proof. apply dec_S_err. change 255 with (7 * 32 + 31). rewrite read_head_31 by lia. reflexivity. Qed.
+
+Theorem decode_rejects_empty L : decode L [] = Err ETrunc.
+Proof. reflexivity. Qed.
+
+Theorem decode_rejects_trailing L (HL : lim64 L) x b rest :
+  within L x = true -> decode L (encode x ++ b :: rest) = Err ETrailing.
+Proof.
+  unfold within. intros H. apply andb_true_iff in H. destruct H as [Hwf Hh]. apply Nat.leb_le in Hh.
+  unfold decode. rewrite (dec_encode L HL x _ _ _ Hwf Hh); [reflexivity|].
+  rewrite app_length. lia.
+Qed.
+
+Theorem decode_rejects_dup_key L (HL : lim64 L) k v1 v2 :
+  within L (Map [(k, v1)]) = true -> wf L v2 = true -> (height v2 < max_depth L)%nat ->
+  2 <= max_map L ->
+  decode L (head 5 2 ++ encode k ++ encode v1 ++ encode k ++ encode v2) = Err EDup.
+Proof.
+  unfold within. intros H Hw2 Hh2 Hmm. apply andb_true_iff in H. destruct H as [Hwf Hh].
+  apply Nat.leb_le in Hh. rewrite height_map in Hh. cbn [hmaxp fold_right] in Hh.
+  cbn [wf forallb] in Hwf.
+  apply andb_true_iff in Hwf. destruct Hwf as [Hwf _].
+  apply andb_true_iff in Hwf. destruct Hwf as [_ Hwf]. rewrite andb_true_r in Hwf.
+  apply andb_true_iff in Hwf. destruct Hwf as [Hwf Hw1].
+  apply andb_true_iff in Hwf. destruct Hwf as [Hsk Hwk].
+  unfold decode.
+  remember (head 5 2 ++ encode k ++ encode v1 ++ encode k ++ encode v2) as bs eqn:Ebs.
+  assert (Hlen : (length (encode k) + length (encode v1) + length (encode v2) <= length bs)%nat).
+  { subst bs. rewrite !app_length. lia. }
+  assert (Hr : read_head bs = Ok (5, ai_of 2, 2, encode k ++ encode v1 ++ encode k ++ encode v2)).
+  { subst bs. apply read_head_head; lia. }
+  rewrite (dec_S_map _ _ _ _ _ _ _ Hr).
+  destruct (max_map L <? 2) eqn:E; [lia|].
+  destruct (max_depth L) as [|d']; [lia|].
+  change (N.to_nat 2) with 2%nat. cbn [dec_pairs].
+  rewrite (dec_encode L HL k (length bs) d' _ Hwk ltac:(lia) ltac:(lia)). rewrite Hsk. cbn [negb].
+  rewrite (dec_encode L HL v1 (length bs) d' _ Hw1 ltac:(lia) ltac:(lia)).
+  rewrite (dec_encode L HL k (length bs) d' _ Hwk ltac:(lia) ltac:(lia)).
+  rewrite <- (app_nil_r (encode v2)).
+  rewrite (dec_encode L HL v2 (length bs) d' _ Hw2 ltac:(lia) ltac:(lia)).
+  rewrite Hsk. cbn [negb map fst has_dup existsb]. rewrite bytes_eqb_refl. reflexivity.
+Qed.
+
+Lemma dec_rejects_deep L (Ha : 1 <= max_arr L) : forall depth fuel rest,
+  (depth < fuel)%nat -> dec L fuel depth (repeat 129 (S depth) ++ rest) = Err EDepth.
+Proof.
+  induction depth as [|d IH]; intros fuel rest Hf; (destruct fuel as [|f]; [lia|]).
+  - cbn [repeat app]. change 129 with (4 * 32 + 1).
+    rewrite (dec_S_arr _ _ _ _ _ _ _ (read_head_small 4 1 rest ltac:(lia) ltac:(lia))).
+    destruct (max_arr L <? 1) eqn:E; [lia|]. reflexivity.
+  - change (repeat 129 (S (S d)) ++ rest) with ((4 * 32 + 1) :: (repeat 129 (S d) ++ rest)).
+    rewrite (dec_S_arr _ _ _ _ _ _ _ (read_head_small 4 1 _ ltac:(lia) ltac:(lia))).
+    destruct (max_arr L <? 1) eqn:E; [lia|].
+    change (N.to_nat 1) with 1%nat. cbn [dec_seq]. rewrite IH by lia. reflexivity.
+Qed.
+
+Theorem decode_rejects_deep L : 1 <= max_arr L ->
+  decode L (repeat 129 (S (max_depth L)) ++ [0]) = Err EDepth.
+Proof.
+  intros Ha. unfold decode. rewrite dec_rejects_deep; [reflexivity|exact Ha|].
+  rewrite app_length, repeat_length. cbn [length]. lia.
+Qed.
+
+Theorem dec_rejects_bignum_tag L f depth t rest :
+  t = 2 \/ t = 3 -> dec L (S f) depth (head 6 t ++ rest) = Err EBigTag.
+Proof.
+  intros Ht.
+  rewrite (dec_S_tag _ _ _ _ _ _ _ (read_head_head 6 t rest ltac:(lia) ltac:(lia))).
+  destruct Ht as [-> | ->]; reflexivity.
+Qed.
+
+Theorem decode_rejects_bignum_tag L t rest : t = 2 \/ t = 3 -> decode L (head 6 t ++ rest) = Err EBigTag.
+Proof. intros Ht. unfold decode. rewrite dec_rejects_bignum_tag by exact Ht. reflexivity. Qed.
+
+Theorem dec_rejects_bad_utf8 L f depth b rest :
+  utf8_valid b = false -> all_bytes b = true -> len b < W64 ->
+  dec L (S f) depth (head 3 (len b) ++ b ++ rest) = Err EUtf8.
+Proof.
+  intros Hu Hb Hl.
+  rewrite (dec_S_tstr _ _ _ _ _ _ _ (read_head_head 3 (len b) _ ltac:(lia) Hl)).
+  rewrite take_n_app, Hb, Hu. reflexivity.
+Qed.
+
+Theorem decode_rejects_bad_utf8 L b :
+  utf8_valid b = false -> all_bytes b = true -> len b < W64 ->
+  decode L (head 3 (len b) ++ b) = Err EUtf8.
+Proof.
+  intros Hu Hb Hl.
+  pose proof (dec_rejects_bad_utf8 L (length (head 3 (len b) ++ b)) (max_depth L) b [] Hu Hb Hl) as H.
+  rewrite app_nil_r in H. unfold decode. rewrite H. reflexivity.
+Qed.
+
+Theorem dec_rejects_oversize_arr L f depth n rest :
+  max_arr L < n -> n < W64 -> dec L (S f) depth (head 4 n ++ rest) = Err ESize.
+Proof.
+  intros Hn Hl.
+  rewrite (dec_S_arr _ _ _ _ _ _ _ (read_head_head 4 n rest ltac:(lia) Hl)).
+  destruct (max_arr L <? n) eqn:E; [reflexivity|lia].
+Qed.
+
+Theorem dec_rejects_oversize_map L f depth n rest :
+  max_map L < n -> n < W64 -> dec L (S f) depth (head 5 n ++ rest) = Err ESize.
+Proof.
+  intros Hn Hl.
+  rewrite (dec_S_map _ _ _ _ _ _ _ (read_head_head 5 n rest ltac:(lia) Hl)).
+  destruct (max_map L <? n) eqn:E; [reflexivity|lia].
+Qed.
+
+(* ------------------------------------------------------------------ *)
+(* invariant of every accepted item                                     *)
+
+Fixpoint wf_dec (L : limits) (x : item) : bool :=
+  match x with
+  | UInt n | NInt n => n <? W64
+  | BStr b => all_bytes b && (len b <? W64)
+  | TStr b => all_bytes b && (len b <? W64) && utf8_valid b
+  | Arr l => (len l <=? max_arr L) && forallb (wf_dec L) l
+  | Map l =>
+      (len l <=? max_map L)
+      && forallb (fun kv : item * item => match kv with (k, v) => scalar_key k && wf_dec L k && wf_dec L v end) l
+      && negb (has_dup (map (fun kv : item * item => encode (fst kv)) l))
+  | Tag t y => (t <? W64) && tag_allowed t && wf_dec L y
+  | Simple v => simple_ok v
+  end.
+
+Lemma hmax_le l d : Forall (fun y => (height y <= d)%nat) l -> (hmax l <= d)%nat.
+Proof.
+  induction 1 as [|y l Hy Hl IH]; cbn [hmax fold_right]; [lia|]. fold (hmax l). lia.
+Qed.
+
+Lemma hmaxp_le l d :
+  Forall (fun kv : item * item => (height (fst kv) <= d /\ height (snd kv) <= d)%nat) l -> (hmaxp l <= d)%nat.
+Proof.
+  induction 1 as [|[k v] l Hy Hl IH]; cbn [hmaxp fold_right]; [lia|]. fold (hmaxp l).
+  cbn [fst snd] in Hy. lia.
+Qed.
+
+Lemma dec_seq_sound d n (P : item -> Prop) :
+  (forall bs x r, d bs = Ok (x, r) -> P x) ->
+  forall bs xs r, dec_seq d n bs = Ok (xs, r) -> Forall P xs /\ length xs = n.
+Proof.
+  intros Hd. induction n as [|n IH]; intros bs xs r H; cbn [dec_seq] in H.
+  - injection H as <- <-. split; [constructor|reflexivity].
+  - destruct (d bs) as [[x r0]|e] eqn:E; [|discriminate].
+    destruct (dec_seq d n r0) as [[xs' r1]|e] eqn:E1; [|discriminate].
+    injection H as <- <-. apply Hd in E. apply IH in E1. destruct E1 as [E1 E2].
+    split; [constructor; assumption|cbn [length]; lia].
+Qed.
+
+Lemma dec_pairs_sound d n (P : item -> Prop) :
+  (forall bs x r, d bs = Ok (x, r) -> P x) ->
+  forall bs ps r, dec_pairs d n bs = Ok (ps, r) ->
+  Forall (fun kv : item * item => scalar_key (fst kv) = true /\ P (fst kv) /\ P (snd kv)) ps /\ length ps = n.
+Proof.
+  intros Hd. induction n as [|n IH]; intros bs ps r H; cbn [dec_pairs] in H.
+  - injection H as <- <-. split; [constructor|reflexivity].
+  - destruct (d bs) as [[k r0]|e] eqn:E; [|discriminate].
+    destruct (scalar_key k) eqn:Ek; cbn [negb] in H; [|discriminate].
+    destruct (d r0) as [[v r1]|e] eqn:E0; [|discriminate].
+    destruct (dec_pairs d n r1) as [[ps' r2]|e] eqn:E1; [|discriminate].
+    injection H as <- <-. apply Hd in E. apply Hd in E0. apply IH in E1. destruct E1 as [E1 E2].
+    split; [constructor; [cbn [fst snd]; auto|assumption]|cbn [length]; lia].
+Qed.
+
+Theorem dec_sound L : forall fuel depth bs x r,
+  dec L fuel depth bs = Ok (x, r) -> wf_dec L x = true /\ (height x <= depth)%nat.
+Proof.
+  induction fuel as [|f IH]; intros depth bs x r H; [discriminate|].
+  destruct (read_head bs) as [[[[mt ai] n] r0]|e] eqn:Hr;
+    [|rewrite (dec_S_err _ _ _ _ _ Hr) in H; discriminate].
+  pose proof (read_head_spec _ _ _ _ _ Hr) as (Hlen & Hmt & Hai & Hn & Hsm & H24 & _).
+  destruct (mt_cases mt Hmt) as [-> |[-> |[-> |[-> |[-> |[-> |[-> | ->]]]]]]].
+  - rewrite (dec_S_uint _ _ _ _ _ _ _ Hr) in H. injection H as <- <-.
+    cbn [wf_dec height]. split; [apply N.ltb_lt; exact Hn|lia].
+  - rewrite (dec_S_nint _ _ _ _ _ _ _ Hr) in H. injection H as <- <-.
+    cbn [wf_dec height]. split; [apply N.ltb_lt; exact Hn|lia].
+  - rewrite (dec_S_bstr _ _ _ _ _ _ _ Hr) in H.
+    destruct (take_n n r0) as [[a r']|] eqn:Et; [|discriminate].
+    destruct (all_bytes a) eqn:Ea; [|discriminate]. injection H as <- <-.
+    apply take_n_spec in Et. destruct Et as [_ Hl].
+    cbn [wf_dec height]. rewrite Ea. split; [|lia]. apply andb_true_iff. split; [reflexivity|].
+    apply N.ltb_lt. lia.
+  - rewrite (dec_S_tstr _ _ _ _ _ _ _ Hr) in H.
+    destruct (take_n n r0) as [[a r']|] eqn:Et; [|discriminate].
+    destruct (all_bytes a) eqn:Ea; [|discriminate]. destruct (utf8_valid a) eqn:Eu; [|discriminate].
+    injection H as <- <-.
+    apply take_n_spec in Et. destruct Et as [_ Hl].
+    cbn [wf_dec height]. rewrite Ea, Eu. split; [|lia]. rewrite andb_true_r. cbn [andb].
+    apply N.ltb_lt. lia.
+  - rewrite (dec_S_arr _ _ _ _ _ _ _ Hr) in H.
+    destruct (max_arr L <? n) eqn:Em; [discriminate|]. destruct depth as [|d']; [discriminate|].
+    destruct (dec_seq (dec L f d') (N.to_nat n) r0) as [[xs r']|e] eqn:Es; [|discriminate].
+    injection H as <- <-.
+    apply (dec_seq_sound _ _ (fun y => wf_dec L y = true /\ (height y <= d')%nat) (IH d')) in Es.
+    destruct Es as [Hall Hl]. rewrite height_arr. cbn [wf_dec]. split.
+    + apply andb_true_iff. split; [unfold len; lia|].
+      apply forallb_forall. intros y Hy. rewrite Forall_forall in Hall. apply (Hall y Hy).
+    + apply le_n_S. apply hmax_le. eapply Forall_impl; [|exact Hall]. intros y Hy. apply Hy.
+  - rewrite (dec_S_map _ _ _ _ _ _ _ Hr) in H.
+    destruct (max_map L <? n) eqn:Em; [discriminate|]. destruct depth as [|d']; [discriminate|].
+    destruct (dec_pairs (dec L f d') (N.to_nat n) r0) as [[ps r']|e] eqn:Es; [|discriminate].
+    destruct (has_dup _) eqn:Edup; [discriminate|].
+    injection H as <- <-.
+    apply (dec_pairs_sound _ _ (fun y => wf_dec L y = true /\ (height y <= d')%nat) (IH d')) in Es.
+    destruct Es as [Hall Hl]. rewrite height_map. cbn [wf_dec]. split.
+    + rewrite Edup. rewrite andb_true_r. apply andb_true_iff. split; [unfold len; lia|].
+      apply forallb_forall. intros [k v] Hkv. rewrite Forall_forall in Hall.
+      destruct (Hall _ Hkv) as (Hs & [Hk _] & [Hv _]). cbn [fst snd] in *.
+      rewrite Hs, Hk, Hv. reflexivity.
+    + apply le_n_S. apply hmaxp_le. eapply Forall_impl; [|exact Hall].
+      intros kv (_ & [_ Hk] & [_ Hv]). split; assumption.
+  - rewrite (dec_S_tag _ _ _ _ _ _ _ Hr) in H.
+    destruct (tag_allowed n) eqn:Eta; cbn [negb] in H; [|discriminate].
+    destruct (dec L f depth r0) as [[y r']|e] eqn:Ed; [|discriminate].
+    injection H as <- <-. apply IH in Ed. destruct Ed as [Hw Hh].
+    cbn [wf_dec height]. rewrite Eta, Hw. split; [|exact Hh].
+    rewrite !andb_true_r. apply N.ltb_lt. exact Hn.
+  - rewrite (dec_S_simple _ _ _ _ _ _ _ Hr) in H.
+    destruct (ai <? 24) eqn:E1.
+    { injection H as <- <-. cbn [wf_dec height]. split; [|lia]. unfold simple_ok.
+      rewrite (Hsm ltac:(lia)). rewrite E1. reflexivity. }
+    destruct (ai =? 24) eqn:E2; [|discriminate].
+    destruct (n <? 32) eqn:E3; [discriminate|]. injection H as <- <-.
+    cbn [wf_dec height]. split; [|lia]. unfold simple_ok.
+    specialize (H24 ltac:(lia)). apply orb_true_iff. right. lia.
+Qed.
+
+Theorem decode_sound L bs x :
+  decode L bs = Ok x -> wf_dec L x = true /\ (height x <= max_depth L)%nat.
+Proof.
+  unfold decode. intros H.
+  destruct (dec L (S (length bs)) (max_depth L) bs) as [[y [|b r]]|e] eqn:E; try discriminate.
+  injection H as <-. apply dec_sound in E. exact E.
+Qed.
+
+(* ------------------------------------------------------------------ *)
+(* insertion sort by an encoded key, generically                        *)
+
+Section KeySort.
+  Context {A : Type}.
+  Variable key : A -> bytes.
+
+  Fixpoint ins (p : A) (l : list A) : list A :=
+    match l with
+    | [] => [p]
+    | q :: l' => if lex_leb (key p) (key q) then p :: l else q :: ins p l'
+    end.
+
+  Fixpoint srt (l : list A) : list A :=
+    match l with
+    | [] => []
+    | p :: l' => ins p (srt l')
+    end.
+
+  Definition kle (a b : A) : Prop := lex_leb (key a) (key b) = true.
+
+  Lemma ins_perm p l : Permutation (ins p l) (p :: l).
+  Proof.
+    induction l as [|q l IH]; cbn [ins]; [apply Permutation_refl|].
+    destruct (lex_leb (key p) (key q)); [apply Permutation_refl|].
+    eapply Permutation_trans; [apply perm_skip, IH|apply perm_swap].
+  Qed.
+
+  Lemma srt_perm l : Permutation (srt l) l.
+  Proof.
+    induction l as [|p l IH]; cbn [srt]; [constructor|].
+    eapply Permutation_trans; [apply ins_perm|apply perm_skip, IH].
+  Qed.
+
+  Lemma ins_ssorted p l : StronglySorted kle l -> StronglySorted kle (ins p l).
+  Proof.
+    induction l as [|q l IH]; intros Hs; cbn [ins].
+    - constructor; constructor.
+    - inversion Hs as [|? ? Hs' Hq]; subst. destruct (lex_leb (key p) (key q)) eqn:E.
+      + constructor; [exact Hs|]. constructor; [exact E|].
+        eapply Forall_impl; [|exact Hq]. intros c Hc. unfold kle in *.
+        eapply lex_leb_trans; eassumption.
+      + constructor; [apply IH, Hs'|].
+        apply Forall_forall. intros c Hc.
+        apply (Permutation_in _ (ins_perm p l)) in Hc. destruct Hc as [<-|Hc].
+        * unfold kle. apply lex_ltb_leb, lex_leb_total, E.
+        * rewrite Forall_forall in Hq. apply Hq, Hc.
+  Qed.
+
+  Lemma srt_ssorted l : StronglySorted kle (srt l).
+  Proof.
+    induction l as [|p l IH]; cbn [srt]; [constructor|]. apply ins_ssorted, IH.
+  Qed.
+
+  Lemma srt_id_sorted l : Sorted kle l -> srt l = l.
+  Proof.
+    induction 1 as [|p l Hs IH Hd]; [reflexivity|].
+    cbn [srt]. rewrite IH. destruct Hd as [|q l Hpq]; [reflexivity|].
+    cbn [ins]. unfold kle in Hpq. rewrite Hpq. reflexivity.
+  Qed.
+
+  Lemma srt_idem l : srt (srt l) = srt l.
+  Proof. apply srt_id_sorted, StronglySorted_Sorted, srt_ssorted. Qed.
+
+  Lemma strict_Sorted l : strictly_sorted (map key l) = true -> Sorted kle l.
+  Proof.
+    induction l as [|p l IH]; intros H; [constructor|].
+    cbn [map] in H. constructor; [apply IH, (ss_tail _ _ H)|].
+    destruct l as [|q l]; [constructor|]. constructor.
+    cbn [map strictly_sorted] in H. apply andb_true_iff in H. destruct H as [H _].
+    unfold kle. apply lex_ltb_leb, H.
+  Qed.
+
+  Lemma srt_strict_id l : strictly_sorted (map key l) = true -> srt l = l.
+  Proof. intros H. apply srt_id_sorted, strict_Sorted, H. Qed.
+
+  Lemma ssorted_nodup_strict l :
+    NoDup (map key l) -> StronglySorted kle l -> strictly_sorted (map key l) = true.
+  Proof.
+    induction l as [|p l IH]; intros Hn Hs; [reflexivity|].
+    cbn [map] in Hn |- *. inversion Hn as [|? ? Hnin Hn']; subst.
+    inversion Hs as [|? ? Hs' Hp]; subst.
+    apply ss_cons; [|apply IH; assumption].
+    apply Forall_forall. intros b Hb. apply in_map_iff in Hb. destruct Hb as (q & <- & Hq).
+    rewrite Forall_forall in Hp. specialize (Hp q Hq). unfold kle in Hp.
+    apply lex_leb_neq_ltb; [exact Hp|]. intros Heq. apply Hnin. rewrite Heq. apply in_map, Hq.
+  Qed.
+
+  Lemma srt_strict l : NoDup (map key l) -> strictly_sorted (map key (srt l)) = true.
+  Proof.
+    intros Hn. apply ssorted_nodup_strict; [|apply srt_ssorted].
+    eapply Permutation_NoDup; [|exact Hn]. apply Permutation_map, Permutation_sym, srt_perm.
+  Qed.
+
+  Lemma strict_perm_eq : forall l l',
+    Permutation l l' ->
+    strictly_sorted (map key l) = true -> strictly_sorted (map key l') = true -> l = l'.
+  Proof.
+    induction l as [|p l IH]; intros [|q l'] Hp Hs Hs'.
+    - reflexivity.
+    - apply Permutation_nil in Hp. discriminate.
+    - apply Permutation_sym, Permutation_nil in Hp. discriminate.
+    - cbn [map] in Hs, Hs'.
+      pose proof (ss_head_lt _ _ Hs) as Hl. pose proof (ss_head_lt _ _ Hs') as Hl'.
+      rewrite Forall_forall in Hl, Hl'.
+      assert (Hpq : p = q).
+      { pose proof (Permutation_in p Hp (or_introl eq_refl)) as H1.
+        pose proof (Permutation_in q (Permutation_sym Hp) (or_introl eq_refl)) as H2.
+        destruct H1 as [H1|H1]; [congruence|]. destruct H2 as [H2|H2]; [congruence|].
+        specialize (Hl' (key p) (in_map key _ _ H1)). specialize (Hl (key q) (in_map key _ _ H2)).
+        rewrite (lex_ltb_asym _ _ Hl) in Hl'. discriminate. }
+      subst q. f_equal. apply IH; [eapply Permutation_cons_inv; exact Hp| |].
+      + apply (ss_tail _ _ Hs).
+      + apply (ss_tail _ _ Hs').
+  Qed.
+
+  Lemma srt_perm_eq l l' : Permutation l l' -> NoDup (map key l) -> srt l = srt l'.
+  Proof.
+    intros Hp Hn. apply strict_perm_eq.
+    - eapply Permutation_trans; [apply srt_perm|].
+      eapply Permutation_trans; [exact Hp|apply Permutation_sym, srt_perm].
+    - apply srt_strict, Hn.
+    - apply srt_strict. eapply Permutation_NoDup; [|exact Hn]. apply Permutation_map, Hp.
+  Qed.
+End KeySort.
+
+Lemma map_ins {A B} (k1 : A -> bytes) (k2 : B -> bytes) (f : A -> B) :
+  (forall p, k2 (f p) = k1 p) -> forall p l, map f (ins k1 p l) = ins k2 (f p) (map f l).
+Proof.
+  intros Hk p l. induction l as [|q l IH]; cbn [ins map]; [reflexivity|].
+  rewrite !Hk. destruct (lex_leb (k1 p) (k1 q)); cbn [map]; [reflexivity|]. rewrite IH. reflexivity.
+Qed.
+
+Lemma map_srt {A B} (k1 : A -> bytes) (k2 : B -> bytes) (f : A -> B) :
+  (forall p, k2 (f p) = k1 p) -> forall l, map f (srt k1 l) = srt k2 (map f l).
+Proof.
+  intros Hk l. induction l as [|p l IH]; cbn [srt map]; [reflexivity|].
+  rewrite (map_ins k1 k2 f Hk), IH. reflexivity.
+Qed.
+
+Definition ek (kv : item * item) : bytes := encode (fst kv).
+
+Lemma insert_by_ins {A} (p : bytes * A) l : insert_by p l = ins fst p l.
+Proof. induction l as [|q l IH]; cbn [insert_by ins]; [reflexivity|]. rewrite IH. reflexivity. Qed.
+
+Lemma sort_by_srt {A} (l : list (bytes * A)) : sort_by l = srt fst l.
+Proof. induction l as [|p l IH]; cbn [sort_by srt]; [reflexivity|]. rewrite insert_by_ins, IH. reflexivity. Qed.
+
+Lemma insert_kv_ins p l : insert_kv p l = ins ek p l.
+Proof. induction l as [|q l IH]; cbn [insert_kv ins]; [reflexivity|]. rewrite IH. reflexivity. Qed.
+
+Lemma sort_kv_srt l : sort_kv l = srt ek l.
+Proof. induction l as [|p l IH]; cbn [sort_kv srt]; [reflexivity|]. rewrite insert_kv_ins, IH. reflexivity. Qed.
+
+Lemma ek_enc_kv p : fst (enc_kv p) = ek p.
+Proof. destruct p as [k v]. reflexivity. Qed.
+
+Lemma map_ek l : map ek l = map (fun kv : item * item => encode (fst kv)) l.
+Proof. reflexivity. Qed.
+
+Lemma has_dup_NoDup l : has_dup l = false -> NoDup l.
+Proof.
+  induction l as [|a l IH]; intros H; [constructor|].
+  cbn [has_dup] in H. apply orb_false_iff in H. destruct H as [H1 H2].
+  constructor; [|apply IH, H2]. intros Hin.
+  assert (existsb (bytes_eqb a) l = true); [|congruence].
+  apply existsb_exists. exists a. split; [exact Hin|apply bytes_eqb_refl].
+Qed.
+
+Lemma NoDup_has_dup l : NoDup l -> has_dup l = false.
+Proof.
+  induction 1 as [|a l Hn Hd IH]; [reflexivity|].
+  cbn [has_dup]. rewrite IH, orb_false_r.
+  destruct (existsb (bytes_eqb a) l) eqn:E; [|reflexivity].
+  apply existsb_exists in E. destruct E as (b & Hb & Hab). apply bytes_eqb_eq in Hab. subst b.
+  contradiction.
+Qed.
+
+(* ------------------------------------------------------------------ *)
+(* canonical form                                                       *)
+
+Definition ckv (kv : item * item) : item * item := match kv with (k, v) => (k, canon v) end.
+
+Lemma canon_map_unfold l : canon (Map l) = Map (sort_kv (map ckv l)).
+Proof. reflexivity. Qed.
+
+Lemma canon_scalar k : scalar_key k = true -> canon k = k.
+Proof. destruct k; try reflexivity; discriminate. Qed.
+
+Lemma wf_dec_scalar L k : scalar_key k = true -> wf_dec L k = wf L k.
+Proof. destruct k; try reflexivity; discriminate. Qed.
+
+Lemma map_ek_ckv l : map ek (map ckv l) = map ek l.
+Proof. rewrite map_map. apply map_ext. intros [k v]. reflexivity. Qed.
+
+Lemma hmax_cons y l : hmax (y :: l) = Nat.max (height y) (hmax l).
+Proof. reflexivity. Qed.
+
+Lemma hmaxp_cons k v l : hmaxp ((k, v) :: l) = Nat.max (Nat.max (height k) (height v)) (hmaxp l).
+Proof. reflexivity. Qed.
+
+Lemma hmaxp_perm l l' : Permutation l l' -> hmaxp l = hmaxp l'.
+Proof.
+  induction 1 as [|[k v] l l' Hp IH|[k v] [k' v'] l|l l' l'' Hp IH Hp' IH'].
+  - reflexivity.
+  - rewrite !hmaxp_cons, IH. reflexivity.
+  - rewrite !hmaxp_cons. lia.
+  - congruence.
+Qed.
+
+Lemma map_id_in {A} (f : A -> A) l : (forall y, In y l -> f y = y) -> map f l = l.
+Proof.
+  intros H. rewrite <- (map_id l) at 2. apply map_ext_in. exact H.
+Qed.
+
+Theorem height_canon : forall x, height (canon x) = height x.
+Proof.
+  intros x; induction x as [n|n|b|b|l IH|l IH|t x IH|v] using item_ind'; try reflexivity.
+  - cbn [canon]. rewrite !height_arr. f_equal.
+    induction IH as [|y l Hy Hl IHl]; [reflexivity|].
+    cbn [map]. rewrite !hmax_cons, Hy, IHl. reflexivity.
+  - rewrite canon_map_unfold, !height_map. f_equal.
+    rewrite sort_kv_srt, (hmaxp_perm _ _ (srt_perm ek (map ckv l))).
+    induction IH as [|[k v] l [Hk Hv] Hl IHl]; [reflexivity|].
+    cbn [map ckv]. rewrite !hmaxp_cons, IHl. cbn [snd] in Hv. rewrite Hv. reflexivity.
+  - cbn [canon height]. exact IH.
+Qed.
+
+Theorem canon_wf L : forall x, wf_dec L x = true -> wf L (canon x) = true.
+Proof.
+  intros x; induction x as [n|n|b|b|l IH|l IH|t x IH|v] using item_ind'; intros H;
+    try exact H.
+  - cbn [wf_dec] in H. apply andb_true_iff in H. destruct H as [Hlen Hall].
+    cbn [canon wf]. apply andb_true_iff. split.
+    + unfold len in *. rewrite map_length. exact Hlen.
+    + apply forallb_forall. intros y' Hy'. apply in_map_iff in Hy'. destruct Hy' as (y & <- & Hy).
+      rewrite Forall_forall in IH. apply (IH y Hy).
+      rewrite forallb_forall in Hall. apply Hall, Hy.
+  - cbn [wf_dec] in H. apply andb_true_iff in H. destruct H as [H Hdup].
+    apply andb_true_iff in H. destruct H as [Hlen Hall].
+    apply negb_true_iff in Hdup.
+    rewrite canon_map_unfold, sort_kv_srt. cbn [wf].
+    pose proof (srt_perm ek (map ckv l)) as Hperm.
+    apply andb_true_iff. split; [apply andb_true_iff; split|].
+    + unfold len in *. rewrite (Permutation_length Hperm), map_length. exact Hlen.
+    + apply forallb_forall. intros kv' Hkv'.
+      apply (Permutation_in _ Hperm) in Hkv'. apply in_map_iff in Hkv'.
+      destruct Hkv' as ([k v] & <- & Hkv). cbn [ckv].
+      rewrite forallb_forall in Hall. specialize (Hall _ Hkv). cbn beta iota in Hall.
+      apply andb_true_iff in Hall. destruct Hall as [Hall Hwv].
+      apply andb_true_iff in Hall. destruct Hall as [Hsk Hwk].
+      rewrite Forall_forall in IH. destruct (IH _ Hkv) as [_ IHv]. cbn [snd] in IHv.
+      rewrite Hsk, (IHv Hwv). rewrite <- (wf_dec_scalar L k Hsk), Hwk. reflexivity.
+    + change (strictly_sorted (map ek (srt ek (map ckv l))) = true).
+      apply srt_strict. rewrite map_ek_ckv. apply has_dup_NoDup. exact Hdup.
+  - cbn [wf_dec] in H. apply andb_true_iff in H. destruct H as [H Hw].
+    cbn [canon wf]. rewrite H, (IH Hw). reflexivity.
+Qed.
+
+Theorem canon_within L x :
+  wf_dec L x = true -> (height x <= max_depth L)%nat -> within L (canon x) = true.
+Proof.
+  intros Hw Hh. unfold within. rewrite (canon_wf L x Hw), height_canon. cbn [andb].
+  apply Nat.leb_le. exact Hh.
+Qed.
+
+Theorem canon_idem L : forall x, wf L x = true -> canon x = x.
+Proof.
+  intros x; induction x as [n|n|b|b|l IH|l IH|t x IH|v] using item_ind'; intros H;
+    try reflexivity.
+  - cbn [wf] in H. apply andb_true_iff in H. destruct H as [_ Hall].
+    cbn [canon]. f_equal. apply map_id_in. intros y Hy.
+    rewrite Forall_forall in IH. apply (IH y Hy). rewrite forallb_forall in Hall. apply Hall, Hy.
+  - cbn [wf] in H. apply andb_true_iff in H. destruct H as [H Hss].
+    apply andb_true_iff in H. destruct H as [_ Hall].
+    rewrite canon_map_unfold. f_equal.
+    assert (Hid : map ckv l = l).
+    { apply map_id_in. intros [k v] Hkv. cbn [ckv]. f_equal.
+      rewrite Forall_forall in IH. destruct (IH _ Hkv) as [_ IHv]. cbn [snd] in IHv. apply IHv.
+      rewrite forallb_forall in Hall. specialize (Hall _ Hkv). cbn beta iota in Hall.
+      apply andb_true_iff in Hall. apply Hall. }
+    rewrite Hid, sort_kv_srt. apply srt_strict_id. exact Hss.
+  - cbn [wf] in H. apply andb_true_iff in H. destruct H as [_ Hw].
+    cbn [canon]. f_equal. apply IH, Hw.
+Qed.
+
+(* the deterministic encoder sorts anyway: an item and its canonical form have the same
+   encoding (no side condition) *)
+Theorem encode_canon : forall x, encode (canon x) = encode x.
+Proof.
+  intros x; induction x as [n|n|b|b|l IH|l IH|t x IH|v] using item_ind'; try reflexivity.
+  - cbn [canon encode]. unfold len. rewrite map_length, map_map. do 2 f_equal.
+    apply map_ext_in. intros y Hy. rewrite Forall_forall in IH. apply (IH y Hy).
+  - rewrite canon_map_unfold, !encode_map_unfold, sort_kv_srt, !sort_by_srt.
+    rewrite (map_srt ek fst enc_kv ek_enc_kv), srt_idem.
+    unfold len. rewrite (Permutation_length (srt_perm ek (map ckv l))), map_length.
+    do 4 f_equal. rewrite map_map. apply map_ext_in. intros [k v] Hkv. cbn [ckv enc_kv].
+    rewrite Forall_forall in IH. destruct (IH _ Hkv) as [_ IHv]. cbn [snd] in IHv. rewrite IHv. reflexivity.
+  - cbn [canon encode]. rewrite IH. reflexivity.
+Qed.
+
+Lemma decode_reencode_lim L (HL : lim64 L) bs x :
+  decode L bs = Ok x -> decode L (encode x) = Ok (canon x).
+Proof.
+  intros H. apply decode_sound in H. destruct H as [Hw Hh].
+  rewrite <- encode_canon. apply (decode_encode L HL). apply canon_within; assumption.
+Qed.
+
+(* ------------------------------------------------------------------ *)
+(* independence of the iteration order of Go maps                       *)
+
+Theorem encode_map_order_independent l l' :
+  Permutation l l' -> NoDup (map (fun kv : item * item => encode (fst kv)) l) ->
+  encode (Map l) = encode (Map l').
+Proof.
+  intros Hp Hn. rewrite !encode_map_unfold, !sort_by_srt.
+  unfold len. rewrite (Permutation_length Hp). do 3 f_equal.
+  apply srt_perm_eq; [apply Permutation_map, Hp|].
+  rewrite map_fst_enc_kv. exact Hn.
+Qed.
+
+Lemma ssorted_map {A} (key : A -> bytes) l :
+  StronglySorted (kle key) l -> StronglySorted (fun a b => lex_leb a b = true) (map key l).
+Proof.
+  induction 1 as [|p l Hs IH Hp]; cbn [map]; constructor; [exact IH|].
+  apply Forall_forall. intros b Hb. apply in_map_iff in Hb. destruct Hb as (q & <- & Hq).
+  rewrite Forall_forall in Hp. apply (Hp q Hq).
+Qed.
+
+Theorem encode_map_keys_sorted l :
+  exists ps : list (bytes * bytes),
+    encode (Map l) = head 5 (len l) ++ concat (map (fun p => fst p ++ snd p) ps) /\
+    Permutation ps (map (fun kv : item * item => (encode (fst kv), encode (snd kv))) l) /\
+    StronglySorted (fun a b => lex_leb a b = true) (map fst ps).
+Proof.
+  exists (sort_by (map enc_kv l)). split; [apply encode_map_unfold|]. rewrite sort_by_srt. split.
+  - eapply Permutation_trans; [apply srt_perm|].
+    assert (He : map enc_kv l = map (fun kv : item * item => (encode (fst kv), encode (snd kv))) l).
+    { apply map_ext. intros [k v]. reflexivity. }
+    rewrite He. apply Permutation_refl.
+  - apply ssorted_map, srt_ssorted.
+Qed.
+
+(* ------------------------------------------------------------------ *)
+(* the decoder does not look beyond the item it returns; more fuel does
+   not change a result; truncated encodings are refused                 *)
+
+Definition stable {A} (d : bytes -> res (A * bytes)) : Prop :=
+  forall bs x r, d bs = Ok (x, r) ->
+  exists c, bs = c ++ r /\ forall r', d (c ++ r') = Ok (x, r').
+
+Lemma read_head_stable bs mt ai n r :
+  read_head bs = Ok (mt, ai, n, r) ->
+  exists c, bs = c ++ r /\ forall r', read_head (c ++ r') = Ok (mt, ai, n, r').
+Proof.
+  intros H. apply read_head_spec in H.
+  destruct H as (_ & _ & _ & _ & _ & _ & b & _ & _ & _ & c & Hbs & Hst).
+  exists (b :: c). split; [exact Hbs|exact Hst].
+Qed.
+
+Lemma take_n_stable n bs a r :
+  take_n n bs = Some (a, r) -> bs = a ++ r /\ forall r', take_n n (a ++ r') = Some (a, r').
+Proof.
+  intros H. apply take_n_spec in H. destruct H as [-> <-]. split; [reflexivity|].
+  intros r'. apply take_n_app.
+Qed.
+
+Lemma dec_seq_stable d n : stable d -> stable (dec_seq d n).
+Proof.
+  intros Hd. induction n as [|n IH]; intros bs xs r H; cbn [dec_seq] in H.
+  - injection H as <- <-. exists []. split; [reflexivity|]. intros r'. reflexivity.
+  - destruct (d bs) as [[x r0]|e] eqn:E; [|discriminate].
+    destruct (dec_seq d n r0) as [[xs' r1]|e] eqn:E1; [|discriminate].
+    injection H as <- <-.
+    destruct (Hd _ _ _ E) as (c1 & -> & H1). destruct (IH _ _ _ E1) as (c2 & -> & H2).
+    exists (c1 ++ c2). split; [rewrite app_assoc; reflexivity|].
+    intros r'. cbn [dec_seq]. rewrite <- app_assoc, H1, H2. reflexivity.
+Qed.
+
+Lemma dec_pairs_stable d n : stable d -> stable (dec_pairs d n).
+Proof.
+  intros Hd. induction n as [|n IH]; intros bs ps r H; cbn [dec_pairs] in H.
+  - injection H as <- <-. exists []. split; [reflexivity|]. intros r'. reflexivity.
+  - destruct (d bs) as [[k r0]|e] eqn:E; [|discriminate].
+    destruct (negb (scalar_key k)) eqn:Ek; [discriminate|].
+    destruct (d r0) as [[v r1]|e] eqn:E0; [|discriminate].
+    destruct (dec_pairs d n r1) as [[ps' r2]|e] eqn:E1; [|discriminate].
+    injection H as <- <-.
+    destruct (Hd _ _ _ E) as (c1 & -> & H1). destruct (Hd _ _ _ E0) as (c2 & -> & H2).
+    destruct (IH _ _ _ E1) as (c3 & -> & H3).
+    exists (c1 ++ c2 ++ c3). split; [rewrite <- !app_assoc; reflexivity|].
+    intros r'. cbn [dec_pairs]. rewrite <- !app_assoc, H1, Ek, H2, H3. reflexivity.
+Qed.
+
+Theorem dec_stable L : forall fuel depth, stable (dec L fuel depth).
+Proof.
+  induction fuel as [|f IH]; intros depth bs x r H; [discriminate|].
+  destruct (read_head bs) as [[[[mt ai] n] r0]|e] eqn:Hr;
+    [|rewrite (dec_S_err _ _ _ _ _ Hr) in H; discriminate].
+  pose proof (read_head_spec _ _ _ _ _ Hr) as (_ & Hmt & _).
+  destruct (read_head_stable _ _ _ _ _ Hr) as (hc & -> & Hst).
+  destruct (mt_cases mt Hmt) as [-> |[-> |[-> |[-> |[-> |[-> |[-> | ->]]]]]]].
+  - rewrite (dec_S_uint _ _ _ _ _ _ _ Hr) in H. injection H as <- <-.
+    exists hc. split; [reflexivity|]. intros r'. apply (dec_S_uint _ _ _ _ _ _ _ (Hst r')).
+  - rewrite (dec_S_nint _ _ _ _ _ _ _ Hr) in H. injection H as <- <-.
+    exists hc. split; [reflexivity|]. intros r'. apply (dec_S_nint _ _ _ _ _ _ _ (Hst r')).
+  - rewrite (dec_S_bstr _ _ _ _ _ _ _ Hr) in H.
+    destruct (take_n n r0) as [[a r1]|] eqn:Et; [|discriminate].
+    destruct (all_bytes a) eqn:Ea; [|discriminate]. injection H as <- <-.
+    apply take_n_stable in Et. destruct Et as [-> Ht].
+    exists (hc ++ a). split; [rewrite app_assoc; reflexivity|]. intros r'. rewrite <- app_assoc.
+    rewrite (dec_S_bstr _ _ _ _ _ _ _ (Hst _)), Ht, Ea. reflexivity.
+  - rewrite (dec_S_tstr _ _ _ _ _ _ _ Hr) in H.
+    destruct (take_n n r0) as [[a r1]|] eqn:Et; [|discriminate].
+    destruct (all_bytes a) eqn:Ea; [|discriminate]. destruct (utf8_valid a) eqn:Eu; [|discriminate].
+    injection H as <- <-.
+    apply take_n_stable in Et. destruct Et as [-> Ht].
+    exists (hc ++ a). split; [rewrite app_assoc; reflexivity|]. intros r'. rewrite <- app_assoc.
+    rewrite (dec_S_tstr _ _ _ _ _ _ _ (Hst _)), Ht, Ea, Eu. reflexivity.
+  - rewrite (dec_S_arr _ _ _ _ _ _ _ Hr) in H.
+    destruct (max_arr L <? n) eqn:Em; [discriminate|]. destruct depth as [|d']; [discriminate|].
+    destruct (dec_seq (dec L f d') (N.to_nat n) r0) as [[xs r1]|e] eqn:Es; [|discriminate].
+    injection H as <- <-.
+    destruct (dec_seq_stable _ _ (IH d') _ _ _ Es) as (c & -> & Hs).
+    exists (hc ++ c). split; [rewrite app_assoc; reflexivity|]. intros r'. rewrite <- app_assoc.
+    rewrite (dec_S_arr _ _ _ _ _ _ _ (Hst _)), Em, Hs. reflexivity.
+  - rewrite (dec_S_map _ _ _ _ _ _ _ Hr) in H.
+    destruct (max_map L <? n) eqn:Em; [discriminate|]. destruct depth as [|d']; [discriminate|].
+    destruct (dec_pairs (dec L f d') (N.to_nat n) r0) as [[ps r1]|e] eqn:Es; [|discriminate].
+    destruct (has_dup _) eqn:Edup; [discriminate|].
+    injection H as <- <-.
+    destruct (dec_pairs_stable _ _ (IH d') _ _ _ Es) as (c & -> & Hs).
+    exists (hc ++ c). split; [rewrite app_assoc; reflexivity|]. intros r'. rewrite <- app_assoc.
+    rewrite (dec_S_map _ _ _ _ _ _ _ (Hst _)), Em, Hs, Edup. reflexivity.
+  - rewrite (dec_S_tag _ _ _ _ _ _ _ Hr) in H.
+    destruct (negb (tag_allowed n)) eqn:Eta; [discriminate|].
+    destruct (dec L f depth r0) as [[y r1]|e] eqn:Ed; [|discriminate].
+    injection H as <- <-.
+    destruct (IH _ _ _ _ Ed) as (c & -> & Hs).
+    exists (hc ++ c). split; [rewrite app_assoc; reflexivity|]. intros r'. rewrite <- app_assoc.
+    rewrite (dec_S_tag _ _ _ _ _ _ _ (Hst _)), Eta, Hs. reflexivity.
+  - rewrite (dec_S_simple _ _ _ _ _ _ _ Hr) in H.
+    destruct (ai <? 24) eqn:E1.
+    { injection H as <- <-. exists hc. split; [reflexivity|]. intros r'.
+      rewrite (dec_S_simple _ _ _ _ _ _ _ (Hst _)), E1. reflexivity. }
+    destruct (ai =? 24) eqn:E2; [|discriminate].
+    destruct (n <? 32) eqn:E3; [discriminate|]. injection H as <- <-.
+    exists hc. split; [reflexivity|]. intros r'.
+    rewrite (dec_S_simple _ _ _ _ _ _ _ (Hst _)), E1, E2, E3. reflexivity.
+Qed.
+
+Definition res_le {A} (d d' : bytes -> res A) : Prop := forall bs v, d bs = Ok v -> d' bs = Ok v.
+
+Lemma dec_seq_mono d d' n : res_le d d' -> res_le (dec_seq d n) (dec_seq d' n).
+Proof.
+  intros Hd. induction n as [|n IH]; intros bs v H; cbn [dec_seq] in H |- *; [exact H|].
+  destruct (d bs) as [[x r0]|e] eqn:E; [|discriminate].
+  destruct (dec_seq d n r0) as [[xs' r1]|e] eqn:E1; [|discriminate].
+  rewrite (Hd _ _ E), (IH _ _ E1). exact H.
+Qed.
+
+Lemma dec_pairs_mono d d' n : res_le d d' -> res_le (dec_pairs d n) (dec_pairs d' n).
+Proof.
+  intros Hd. induction n as [|n IH]; intros bs v H; cbn [dec_pairs] in H |- *; [exact H|].
+  destruct (d bs) as [[k r0]|e] eqn:E; [|discriminate].
+  destruct (negb (scalar_key k)) eqn:Ek; [discriminate|].
+  destruct (d r0) as [[v0 r1]|e] eqn:E0; [|discriminate].
+  destruct (dec_pairs d n r1) as [[ps' r2]|e] eqn:E1; [|discriminate].
+  rewrite (Hd _ _ E), Ek, (Hd _ _ E0), (IH _ _ E1). exact H.
+Qed.
+
+Theorem dec_fuel_mono L : forall f f' depth, (f <= f')%nat -> res_le (dec L f depth) (dec L f' depth).
+Proof.
+  induction f as [|f IH]; intros f' depth Hle bs v H; [discriminate|].
+  destruct f' as [|f']; [lia|]. assert (Hle' : (f <= f')%nat) by lia.
+  destruct (read_head bs) as [[[[mt ai] n] r0]|e] eqn:Hr;
+    [|rewrite (dec_S_err _ _ _ _ _ Hr) in H; discriminate].
+  pose proof (read_head_spec _ _ _ _ _ Hr) as (_ & Hmt & _).
+  destruct (mt_cases mt Hmt) as [-> |[-> |[-> |[-> |[-> |[-> |[-> | ->]]]]]]].
+  - rewrite (dec_S_uint L f _ _ _ _ _ Hr) in H. rewrite (dec_S_uint L f' _ _ _ _ _ Hr). exact H.
+  - rewrite (dec_S_nint L f _ _ _ _ _ Hr) in H. rewrite (dec_S_nint L f' _ _ _ _ _ Hr). exact H.
+  - rewrite (dec_S_bstr L f _ _ _ _ _ Hr) in H. rewrite (dec_S_bstr L f' _ _ _ _ _ Hr). exact H.
+  - rewrite (dec_S_tstr L f _ _ _ _ _ Hr) in H. rewrite (dec_S_tstr L f' _ _ _ _ _ Hr). exact H.
+  - rewrite (dec_S_arr L f _ _ _ _ _ Hr) in H. rewrite (dec_S_arr L f' _ _ _ _ _ Hr).
+    destruct (max_arr L <? n); [discriminate|]. destruct depth as [|d']; [discriminate|].
+    destruct (dec_seq (dec L f d') (N.to_nat n) r0) as [[xs r1]|e] eqn:Es; [|discriminate].
+    rewrite (dec_seq_mono _ _ _ (IH f' d' Hle') _ _ Es). exact H.
+  - rewrite (dec_S_map L f _ _ _ _ _ Hr) in H. rewrite (dec_S_map L f' _ _ _ _ _ Hr).
+    destruct (max_map L <? n); [discriminate|]. destruct depth as [|d']; [discriminate|].
+    destruct (dec_pairs (dec L f d') (N.to_nat n) r0) as [[ps r1]|e] eqn:Es; [|discriminate].
+    rewrite (dec_pairs_mono _ _ _ (IH f' d' Hle') _ _ Es). exact H.
+  - rewrite (dec_S_tag L f _ _ _ _ _ Hr) in H. rewrite (dec_S_tag L f' _ _ _ _ _ Hr).
+    destruct (negb (tag_allowed n)); [discriminate|].
+    destruct (dec L f depth r0) as [[y r1]|e] eqn:Ed; [|discriminate].
+    rewrite (IH f' depth Hle' _ _ Ed). exact H.
+  - rewrite (dec_S_simple L f _ _ _ _ _ Hr) in H. rewrite (dec_S_simple L f' _ _ _ _ _ Hr). exact H.
+Qed.
+
+(* the language the decoder accepts is prefix-free: for ANY input, accepted or not canonical *)
+Theorem decode_prefix_free L p s x y :
+  decode L p = Ok x -> decode L (p ++ s) = Ok y -> s = [] /\ x = y.
+Proof.
+  unfold decode. intros Hp Hps.
+  destruct (dec L (S (length p)) (max_depth L) p) as [[x' [|b r]]|e] eqn:E; try discriminate.
+  injection Hp as ->.
+  destruct (dec_stable L _ _ _ _ _ E) as (c & Hc & Hst). rewrite app_nil_r in Hc. subst c.
+  specialize (Hst s).
+  apply (dec_fuel_mono L _ (S (length (p ++ s))) (max_depth L)) in Hst.
+  2:{ rewrite app_length. lia. }
+  rewrite Hst in Hps. destruct s as [|b s]; [|discriminate].
+  injection Hps as ->. split; reflexivity.
+Qed.
+
+(* truncated encodings: every proper prefix of a valid encoding is refused, with ETrunc *)
+
+Lemma take_short k bs : (length bs < k)%nat -> take k bs = None.
+Proof.
+  revert bs; induction k as [|k IH]; intros bs H; [lia|].
+  destruct bs as [|b bs]; cbn [take]; [reflexivity|]. rewrite IH; [reflexivity|cbn [length] in H; lia].
+Qed.
+
+Lemma take_n_short n bs : len bs < n -> take_n n bs = None.
+Proof. intros H. unfold take_n. destruct (n <=? len bs) eqn:E; [lia|reflexivity]. Qed.
+
+Lemma head_shape mt n :
+  exists body, head mt n = (mt * 32 + ai_of n) :: body /\
+    ((n < 24 /\ body = []) \/ (24 <= ai_of n < 28 /\ length body = kof (ai_of n))).
+Proof.
+  unfold head, ai_of.
+  destruct (n <? 24) eqn:E1. { eexists; split; [reflexivity|left; split; [lia|reflexivity]]. }
+  destruct (n <? 256) eqn:E2. { eexists; split; [reflexivity|right; split; [lia|reflexivity]]. }
+  destruct (n <? 65536) eqn:E3.
+  { eexists; split; [reflexivity|right; split; [lia|exact (be_bytes_length 2 n)]]. }
+  destruct (n <? 4294967296) eqn:E4.
+  { eexists; split; [reflexivity|right; split; [lia|exact (be_bytes_length 4 n)]]. }
+  eexists; split; [reflexivity|right; split; [lia|exact (be_bytes_length 8 n)]].
+Qed.
+
+Lemma app_split {A} (a b p s : list A) :
+  a ++ b = p ++ s ->
+  (exists s', a = p ++ s' /\ s' <> [] /\ s = s' ++ b) \/ (exists p', p = a ++ p' /\ b = p' ++ s).
+Proof.
+  revert p; induction a as [|x a IH]; intros p H.
+  - right. exists p. split; [reflexivity|exact H].
+  - destruct p as [|y p].
+    + left. exists (x :: a). cbn [app] in H |- *. split; [reflexivity|]. split; [discriminate|].
+      symmetry; exact H.
+    + cbn [app] in H. injection H as -> H.
+      destruct (IH p H) as [(s' & -> & Hs & ->)|(p' & -> & ->)].
+      * left. exists s'. repeat split; [exact Hs].
+      * right. exists p'. split; reflexivity.
+Qed.
+
+Lemma read_head_trunc mt n p s :
+  mt < 8 -> head mt n = p ++ s -> s <> [] -> read_head p = Err ETrunc.
+Proof.
+  intros Hm H Hs. destruct p as [|b p']; [reflexivity|].
+  destruct (head_shape mt n) as (body & Hh & Hb). rewrite Hh in H. cbn [app] in H.
+  injection H as <- H. destruct Hb as [[Hn ->]|[Hai Hl]].
+  - destruct p' as [|? ?]; [|discriminate]. cbn [app] in H. congruence.
+  - rewrite read_head_ext by assumption. rewrite take_short; [reflexivity|].
+    apply (f_equal (@length N)) in H. rewrite app_length in H.
+    destruct s as [|? s]; [congruence|]. cbn [length] in H. lia.
+Qed.
+
+Definition trunc_ok (d : bytes -> res (item * bytes)) (B : nat) (y : item) : Prop :=
+  (forall rest, (length (encode y) <= B)%nat -> d (encode y ++ rest) = Ok (y, rest)) /\
+  (forall p s, encode y = p ++ s -> s <> [] -> (length p <= B)%nat -> d p = Err ETrunc).
+
+Lemma dec_seq_trunc d B l :
+  Forall (trunc_ok d B) l ->
+  forall p s, concat (map encode l) = p ++ s -> s <> [] -> (length p <= B)%nat ->
+  dec_seq d (length l) p = Err ETrunc.
+Proof.
+  induction 1 as [|y l [Hy1 Hy2] Hl IH]; intros p s H Hs Hp.
+  - cbn [map concat] in H. destruct p; [|discriminate]. cbn [app] in H. congruence.
+  - cbn [map concat] in H. cbn [length dec_seq].
+    destruct (app_split _ _ _ _ H) as [(s' & Hy & Hs' & _)|(p' & -> & Hc)].
+    + rewrite (Hy2 p s' Hy Hs' Hp). reflexivity.
+    + rewrite app_length in Hp. rewrite Hy1 by lia. rewrite (IH p' s Hc Hs) by lia. reflexivity.
+Qed.
+
+Lemma dec_pairs_trunc d B l :
+  Forall (fun kv : item * item =>
+            scalar_key (fst kv) = true /\ trunc_ok d B (fst kv) /\ trunc_ok d B (snd kv)) l ->
+  forall p s,
+  concat (map (fun kv : item * item => encode (fst kv) ++ encode (snd kv)) l) = p ++ s ->
+  s <> [] -> (length p <= B)%nat ->
+  dec_pairs d (length l) p = Err ETrunc.
+Proof.
+  induction 1 as [|[k v] l (Hsk & [Hk1 Hk2] & [Hv1 Hv2]) Hl IH]; intros p s H Hs Hp.
+  - cbn [map concat] in H. destruct p; [|discriminate]. cbn [app] in H. congruence.
+  - cbn [fst snd] in *. cbn [map concat fst snd] in H. rewrite <- app_assoc in H.
+    cbn [length dec_pairs].
+    destruct (app_split _ _ _ _ H) as [(s' & Hy & Hs' & _)|(p1 & -> & Hc)].
+    + rewrite (Hk2 p s' Hy Hs' Hp). reflexivity.
+    + rewrite app_length in Hp. rewrite Hk1 by lia. rewrite Hsk. cbn [negb].
+      destruct (app_split _ _ _ _ Hc) as [(s' & Hy & Hs' & _)|(p2 & -> & Hc2)].
+      * rewrite (Hv2 p1 s' Hy Hs') by lia. reflexivity.
+      * rewrite app_length in Hp. rewrite Hv1 by lia. rewrite (IH p2 s Hc2 Hs) by lia. reflexivity.
+Qed.
+
+Theorem dec_truncated L (HL : lim64 L) : forall x fuel depth p s,
+  wf L x = true -> (height x <= depth)%nat -> (length p < fuel)%nat ->
+  encode x = p ++ s -> s <> [] -> dec L fuel depth p = Err ETrunc.
+Proof.
+  pose proof HL as [HLa HLm].
+  intros x; induction x as [n|n|b|b|l IH|l IH|t x IH|v] using item_ind';
+    intros fuel depth p s Hwf Hh Hf H Hs; (destruct fuel as [|f]; [lia|]).
+  - cbn [encode] in H. apply dec_S_err. apply (read_head_trunc 0 n p s); [lia|exact H|exact Hs].
+  - cbn [encode] in H. apply dec_S_err. apply (read_head_trunc 1 n p s); [lia|exact H|exact Hs].
+  - cbn [wf] in Hwf. apply andb_true_iff in Hwf. destruct Hwf as [Hb Hlen]. apply N.ltb_lt in Hlen.
+    cbn [encode] in H.
+    destruct (app_split _ _ _ _ H) as [(s' & Hy & Hs' & _)|(p' & -> & Hc)].
+    + apply dec_S_err. apply (read_head_trunc 2 (len b) p s'); [lia|exact Hy|exact Hs'].
+    + rewrite (dec_S_bstr _ _ _ _ _ _ _ (read_head_head 2 (len b) p' ltac:(lia) Hlen)).
+      rewrite take_n_short; [reflexivity|]. subst b. rewrite len_app.
+      destruct s as [|? s]; [congruence|]. unfold len; cbn [length]. lia.
+  - cbn [wf] in Hwf. apply andb_true_iff in Hwf. destruct Hwf as [Hwf Hu].
+    apply andb_true_iff in Hwf. destruct Hwf as [Hb Hlen]. apply N.ltb_lt in Hlen.
+    cbn [encode] in H.
+    destruct (app_split _ _ _ _ H) as [(s' & Hy & Hs' & _)|(p' & -> & Hc)].
+    + apply dec_S_err. apply (read_head_trunc 3 (len b) p s'); [lia|exact Hy|exact Hs'].
+    + rewrite (dec_S_tstr _ _ _ _ _ _ _ (read_head_head 3 (len b) p' ltac:(lia) Hlen)).
+      rewrite take_n_short; [reflexivity|]. subst b. rewrite len_app.
+      destruct s as [|? s]; [congruence|]. unfold len; cbn [length]. lia.
+  - cbn [wf] in Hwf. apply andb_true_iff in Hwf. destruct Hwf as [Hlen Hall].
+    rewrite height_arr in Hh. destruct depth as [|d']; [lia|].
+    cbn [encode] in H.
+    destruct (app_split _ _ _ _ H) as [(s' & Hy & Hs' & _)|(p' & -> & Hc)].
+    + apply dec_S_err. apply (read_head_trunc 4 (len l) p s'); [lia|exact Hy|exact Hs'].
+    + rewrite app_length in Hf. pose proof (head_length_pos 4 (len l)) as Hp.
+      rewrite (dec_S_arr _ _ _ _ _ _ _ (read_head_head 4 (len l) p' ltac:(lia) ltac:(lia))).
+      destruct (max_arr L <? len l) eqn:E; [lia|].
+      unfold len at 1. rewrite Nat2N.id.
+      assert (Hfa : Forall (trunc_ok (dec L f d') (length p')) l);
+        [|rewrite (dec_seq_trunc _ _ l Hfa p' s Hc Hs (le_n _)); reflexivity].
+      rewrite Forall_forall in IH |- *. intros y Hy.
+      rewrite forallb_forall in Hall. specialize (Hall y Hy).
+      pose proof (hmax_in l y Hy) as Hhy.
+      split.
+      * intros rest Hle. apply (dec_encode L HL); [exact Hall|lia|lia].
+      * intros p'' s'' He Hs'' Hle. apply (IH y Hy f d' p'' s''); [exact Hall|lia|lia|exact He|exact Hs''].
+  - cbn [wf] in Hwf. apply andb_true_iff in Hwf. destruct Hwf as [Hwf Hss].
+    apply andb_true_iff in Hwf. destruct Hwf as [Hlen Hall].
+    rewrite height_map in Hh. destruct depth as [|d']; [lia|].
+    rewrite (encode_map_sorted l Hss) in H.
+    destruct (app_split _ _ _ _ H) as [(s' & Hy & Hs' & _)|(p' & -> & Hc)].
+    + apply dec_S_err. apply (read_head_trunc 5 (len l) p s'); [lia|exact Hy|exact Hs'].
+    + rewrite app_length in Hf. pose proof (head_length_pos 5 (len l)) as Hp.
+      rewrite (dec_S_map _ _ _ _ _ _ _ (read_head_head 5 (len l) p' ltac:(lia) ltac:(lia))).
+      destruct (max_map L <? len l) eqn:E; [lia|].
+      unfold len at 1. rewrite Nat2N.id.
+      assert (Hfa : Forall (fun kv : item * item =>
+                scalar_key (fst kv) = true /\ trunc_ok (dec L f d') (length p') (fst kv) /\
+                trunc_ok (dec L f d') (length p') (snd kv)) l);
+        [|rewrite (dec_pairs_trunc _ _ l Hfa p' s Hc Hs (le_n _)); reflexivity].
+      rewrite Forall_forall in IH |- *. intros kv Hkv.
+      destruct (IH kv Hkv) as [IHk IHv].
+      rewrite forallb_forall in Hall. specialize (Hall kv Hkv).
+      destruct (hmaxp_in l kv Hkv) as [Hhk Hhv].
+      destruct kv as [k v]. cbn [fst snd] in *.
+      apply andb_true_iff in Hall. destruct Hall as [Hall Hwv].
+      apply andb_true_iff in Hall. destruct Hall as [Hsk Hwk].
+      split; [exact Hsk|]. split; split.
+      * intros rest Hle. apply (dec_encode L HL); [exact Hwk|lia|lia].
+      * intros p'' s'' He Hs'' Hle. apply (IHk f d' p'' s''); [exact Hwk|lia|lia|exact He|exact Hs''].
+      * intros rest Hle. apply (dec_encode L HL); [exact Hwv|lia|lia].
+      * intros p'' s'' He Hs'' Hle. apply (IHv f d' p'' s''); [exact Hwv|lia|lia|exact He|exact Hs''].
+  - cbn [wf] in Hwf. apply andb_true_iff in Hwf. destruct Hwf as [Hwf Hwx].
+    apply andb_true_iff in Hwf. destruct Hwf as [Ht Hta]. apply N.ltb_lt in Ht.
+    cbn [height] in Hh. cbn [encode] in H.
+    destruct (app_split _ _ _ _ H) as [(s' & Hy & Hs' & _)|(p' & -> & Hc)].
+    + apply dec_S_err. apply (read_head_trunc 6 t p s'); [lia|exact Hy|exact Hs'].
+    + rewrite app_length in Hf. pose proof (head_length_pos 6 t) as Hp.
+      rewrite (dec_S_tag _ _ _ _ _ _ _ (read_head_head 6 t p' ltac:(lia) Ht)).
+      rewrite Hta. cbn [negb].
+      rewrite (IH f depth p' s Hwx Hh ltac:(lia) Hc Hs). reflexivity.
+  - cbn [encode] in H. destruct p as [|b0 p]; [reflexivity|].
+    destruct (v <? 24) eqn:E.
+    + cbn [app] in H. injection H as _ H. destruct p; [|discriminate]. cbn [app] in H. congruence.
+    + cbn [app] in H. injection H as <- H. destruct p as [|b1 p].
+      * apply dec_S_err. change 248 with (7 * 32 + 24). rewrite read_head_ext by lia. reflexivity.
+      * cbn [app] in H. injection H as _ H. destruct p; [|discriminate]. cbn [app] in H. congruence.
+Qed.
+
+Theorem decode_rejects_truncated L (HL : lim64 L) x p s :
+  within L x = true -> encode x = p ++ s -> s <> [] -> decode L p = Err ETrunc.
+Proof.
+  unfold within. intros Hw Hps Hs. apply andb_true_iff in Hw. destruct Hw as [Hwf Hh].
+  apply Nat.leb_le in Hh. unfold decode.
+  rewrite (dec_truncated L HL x _ _ p s Hwf Hh ltac:(lia) Hps Hs). reflexivity.
+Qed.
+
+(* ------------------------------------------------------------------ *)
+(* limits beyond 2^64 behave like 2^64-1 for the decoder, so the
+   re-encoding theorem needs no assumption on the limits                *)
+
+Definition cap (L : limits) : limits :=
+  {| max_depth := max_depth L;
+     max_arr := N.min (max_arr L) (W64 - 1);
+     max_map := N.min (max_map L) (W64 - 1) |}.
+
+Lemma lim64_cap L : lim64 (cap L).
+Proof. unfold lim64, cap; cbn [max_arr max_map]. lia. Qed.
+
+Lemma dec_seq_ext d d' n : (forall bs, d bs = d' bs) -> forall bs, dec_seq d n bs = dec_seq d' n bs.
+Proof.
+  intros Hd. induction n as [|n IH]; intros bs; cbn [dec_seq]; [reflexivity|].
+  rewrite Hd. destruct (d' bs) as [[x r]|e]; [|reflexivity]. rewrite IH. reflexivity.
+Qed.
+
+Lemma dec_pairs_ext d d' n : (forall bs, d bs = d' bs) -> forall bs, dec_pairs d n bs = dec_pairs d' n bs.
+Proof.
+  intros Hd. induction n as [|n IH]; intros bs; cbn [dec_pairs]; [reflexivity|].
+  rewrite Hd. destruct (d' bs) as [[k r]|e]; [|reflexivity].
+  destruct (negb (scalar_key k)); [reflexivity|]. rewrite Hd.
+  destruct (d' r) as [[v r1]|e]; [|reflexivity]. rewrite IH. reflexivity.
+Qed.
+
+Lemma dec_cap L : forall fuel depth bs, dec (cap L) fuel depth bs = dec L fuel depth bs.
+Proof.
+  induction fuel as [|f IH]; intros depth bs; [reflexivity|].
+  destruct (read_head bs) as [[[[mt ai] n] r0]|e] eqn:Hr;
+    [|rewrite !(dec_S_err _ _ _ _ _ Hr); reflexivity].
+  pose proof (read_head_spec _ _ _ _ _ Hr) as (_ & Hmt & _ & Hn & _).
+  destruct (mt_cases mt Hmt) as [-> |[-> |[-> |[-> |[-> |[-> |[-> | ->]]]]]]].
+  - rewrite !(dec_S_uint _ _ _ _ _ _ _ Hr). reflexivity.
+  - rewrite !(dec_S_nint _ _ _ _ _ _ _ Hr). reflexivity.
+  - rewrite !(dec_S_bstr _ _ _ _ _ _ _ Hr). reflexivity.
+  - rewrite !(dec_S_tstr _ _ _ _ _ _ _ Hr). reflexivity.
+  - rewrite (dec_S_arr (cap L) _ _ _ _ _ _ Hr), (dec_S_arr L _ _ _ _ _ _ Hr).
+    assert (He : (max_arr (cap L) <? n) = (max_arr L <? n)).
+    { unfold cap; cbn [max_arr]. destruct (max_arr L <? n) eqn:E; lia. }
+    rewrite He. destruct (max_arr L <? n); [reflexivity|]. destruct depth as [|d']; [reflexivity|].
+    rewrite (dec_seq_ext _ _ _ (IH d')). reflexivity.
+  - rewrite (dec_S_map (cap L) _ _ _ _ _ _ Hr), (dec_S_map L _ _ _ _ _ _ Hr).
+    assert (He : (max_map (cap L) <? n) = (max_map L <? n)).
+    { unfold cap; cbn [max_map]. destruct (max_map L <? n) eqn:E; lia. }
+    rewrite He. destruct (max_map L <? n); [reflexivity|]. destruct depth as [|d']; [reflexivity|].
+    rewrite (dec_pairs_ext _ _ _ (IH d')). reflexivity.
+  - rewrite (dec_S_tag (cap L) _ _ _ _ _ _ Hr), (dec_S_tag L _ _ _ _ _ _ Hr).
+    rewrite IH. reflexivity.
+  - rewrite !(dec_S_simple _ _ _ _ _ _ _ Hr). reflexivity.
+Qed.
+
+Lemma decode_cap L bs : decode (cap L) bs = decode L bs.
+Proof. unfold decode. change (max_depth (cap L)) with (max_depth L). rewrite dec_cap. reflexivity. Qed.
+
+(* what the strict decoder accepts, re-encoded, decodes to the canonical form of the item:
+   for every limit record, every byte string *)
+Theorem decode_reencode L bs x : decode L bs = Ok x -> decode L (encode x) = Ok (canon x).
+Proof.
+  intros H. rewrite <- (decode_cap L bs) in H. rewrite <- (decode_cap L (encode x)).
+  exact (decode_reencode_lim (cap L) (lim64_cap L) bs x H).
+Qed.
+
+(* ... and the re-encoding of an accepted stream is a fixed point: encode∘decode is idempotent *)
+Corollary reencode_stable L bs x y :
+  decode L bs = Ok x -> decode L (encode x) = Ok y -> encode y = encode x.
+Proof.
+  intros H1 H2. rewrite (decode_reencode L bs x H1) in H2. injection H2 as <-. apply encode_canon.
+Qed.
